@@ -27,7 +27,8 @@ RULE = ("one case = backend (every class in storage_registry) x geometry (full r
         "mask_linear, has_index/get_from_index over all linear indices, out-of-range and wrong-rank keys, persist, reopen "
         "(new instance on the same folder; for dict backends only the last persisted snapshot survives; optionally after "
         "a simulated process exit that kills manager processes), worker handle (pickled copy dumps; visible to the parent "
-        "iff dump_in_subprocess). distinct_nontrivial = distinct (backend, geometry, history) digests with at least one "
+        "iff dump_in_subprocess); in half of the cases file modification times come from a virtual coarse clock "
+        "(0/1 tick per write) so that quick rewrites share a timestamp. distinct_nontrivial = distinct (backend, geometry, history) digests with at least one "
         "dump and one read")
 COMPONENTS = {
     "real": ["FileArray / DictArray / SharedMemoryDictArray (all public methods)", "normalize_key, select_by_mask, "
